@@ -132,8 +132,8 @@ TarNameClauses(f, t, dotted, skip) ==
      \cup (IF \E i \in real : (t[i].type = "5") # HasSuffix(nm(i), "/") /\ Norm(nm(i)) # <<>> THEN {"C04.dir_trailing_slash"} ELSE {})
      \* a member that is not a regular file has no body: a non-zero size makes readers skip into the next header
      \cup (IF \E i \in real : t[i].type # "0" /\ t[i].size # 0 THEN {"C04.nonregular_member_has_no_size"} ELSE {})
-     \cup (IF \E i \in real : \E a \in Ancestors(Norm(nm(i))) :
-                (\E j \in real : Norm(nm(j)) = a) /\ ~(\E j \in real : j < i /\ Norm(nm(j)) = a)
+     \* every ancestor of a member is itself a member, a DIRECTORY, and comes before it
+     \cup (IF \E i \in real : \E a \in Ancestors(Norm(nm(i))) : ~(\E j \in real : j < i /\ Norm(nm(j)) = a /\ t[j].type = "5")
            THEN {"C04.parents_first"} ELSE {})
 
 RECURSIVE IsSortedStr(_)
